@@ -497,6 +497,8 @@ func (g *gen) managerHistory(n int, withHooks, withDeviant bool) {
 					c := cs[r.Intn(len(cs))]
 					line = fmt.Sprintf("name=A.Credit a=%d c=%d rev=%d amt=%d cost=%d", 1+r.Intn(nAccounts), c.n, c.rev+1, 10+r.Intn(90), r.Intn(5))
 				}
+			case x < 66:
+				g.budgets(g.budgetsLine())
 			case x < 72:
 				line = fmt.Sprintf("name=A.BudgetCommit a=%d max=%d u=[%d,%d,%d,%d,%d,%d,0,0]", g.fundedAccount(b.bal3), 12+r.Intn(12), r.Intn(3), r.Intn(3), r.Intn(3), r.Intn(3), r.Intn(2), r.Intn(2))
 			case x < 80:
@@ -529,7 +531,18 @@ func (g *gen) managerHistory(n int, withHooks, withDeviant bool) {
 				g.w.doRestart(g.tr, parseLine(fmt.Sprintf("restart mode=%s ev=%s", vhlib.Pick(r, "clean", "clean", "abrupt"), g.eventScope())))
 			}
 		}
+		if g.w.diverged {
+			return
+		}
 		g.sweep(line)
+	}
+	// every manager history: overlapping budgets, one commit failing, once rolled back and once retried
+	for _, mode := range []string{"rollback", "retry"} {
+		if g.w.diverged {
+			return
+		}
+		line := g.budgetsLine()
+		g.budgets(strings.Replace(strings.Replace(line, "mode=rollback", "mode="+mode, 1), "mode=retry", "mode="+mode, 1))
 	}
 	g.w.doRestart(g.tr, parseLine("restart mode=clean ev="+g.eventScope()))
 }
@@ -694,6 +707,46 @@ func (g *gen) hooksHistory() {
 	}
 }
 
+// budgetsLine: two or three budgets open at once on one funded account; the commit of one of them fails.
+func (g *gen) budgetsLine() string {
+	r, b := g.r, g.w.b
+	a := g.fundedAccount(b.bal3)
+	if b.bal3[a] < 24 {
+		// fund it first (setup, no faults)
+		if cs := g.liveContracts(false, true); len(cs) > 0 {
+			c := cs[r.Intn(len(cs))]
+			g.setup(fmt.Sprintf("name=A.Credit a=%d c=%d rev=%d amt=%d cost=1", a, c.n, c.rev+1, 60+r.Intn(30)))
+		}
+	}
+	n := 2 + r.Intn(2)
+	var maxs, us []string
+	for i := 0; i < n; i++ {
+		mx := 3 + r.Intn(5)
+		maxs = append(maxs, fmt.Sprint(mx))
+		us = append(us, fmt.Sprint(1+r.Intn(mx)))
+	}
+	return fmt.Sprintf("budgets a=%d maxs=[%s] us=[%s] first=%d mode=%s", a, strings.Join(maxs, ","), strings.Join(us, ","), r.Intn(n), vhlib.Pick(r, "rollback", "retry"))
+}
+
+func (g *gen) budgets(line string) {
+	p := parseLine(line)
+	g.w.doBudgets(g.tr, p, func(n int) int {
+		if n <= 0 {
+			return 0
+		}
+		return g.r.Intn(n)
+	})
+	// bookkeeping: what left the account
+	us, first := p.U64List("us"), p.Int("first")
+	for i, u := range us {
+		if i != first || p.Args["mode"] == "retry" {
+			if g.w.b.bal3[p.Int("a")] >= u {
+				g.w.b.bal3[p.Int("a")] -= u
+			}
+		}
+	}
+}
+
 // eventScope picks the scope of the test event: one that a registered hook listens to, if there is any.
 func (g *gen) eventScope() string {
 	hs, _ := g.w.main.st.Webhooks()
@@ -826,7 +879,7 @@ func replay(t *testing.T, tr *vhlib.Trace, ops []vhlib.ParsedLine, thorough bool
 			w = newWorld(t, profile, thorough)
 			tr.Line(op.Raw, "")
 		case "op":
-			if w == nil {
+			if w == nil || w.diverged {
 				continue
 			}
 			if op.Args["name"] == "I.SyncDB" {
@@ -852,6 +905,10 @@ func replay(t *testing.T, tr *vhlib.Trace, ops []vhlib.ParsedLine, thorough bool
 		case "deliver":
 			if w != nil {
 				w.doDeliver(tr, op)
+			}
+		case "budgets":
+			if w != nil && !w.diverged {
+				w.doBudgets(tr, op, nil)
 			}
 		case "irestart":
 			if w != nil {
